@@ -1122,11 +1122,10 @@ class SessionTransaction(_StateChange, TransactionalContext):
             # if we expunged or not, but safe_discard does that anyway
             self.session.identity_map.safe_discard(s)
 
-            # restore the old key
-            s.key = oldkey
-
-            # now restore the object, but only if we didn't expunge
+            # restore the old key and the object, but only if we didn't
+            # expunge; an expunged object is transient and has no key
             if s not in to_expunge:
+                s.key = oldkey
                 self.session.identity_map.replace(s)
 
         for s in set(self._deleted).union(self.session._deleted):
